@@ -185,6 +185,8 @@ class Tr:
                 return "(" + " || ".join(f"({self.e(a)} == {self.e(x)})" for x in b.elts) + ")"
             if isinstance(op, ast.In) and isinstance(a, ast.Constant) and isinstance(a.value, str) and len(a.value) == 1 and self.typ(b) == "str":
                 return f"({self.e(b)}).contains '{a.value}'"
+            if isinstance(op, (ast.Is, ast.IsNot)) and isinstance(b, ast.Constant) and b.value is None and self.typ(a) == "bool":
+                return self.raw(a) if isinstance(op, ast.IsNot) else f"(!{self.raw(a)})"      # an Optional object the spec represents by its presence
             if isinstance(op, (ast.Is, ast.IsNot)) and isinstance(b, ast.Constant) and b.value is None:
                 return f"({self.raw(a)}).{'isNone' if isinstance(op, ast.Is) else 'isSome'}"
             if isinstance(op, (ast.In, ast.NotIn)) and self.typ(b) == "dict":
@@ -267,6 +269,8 @@ class Tr:
             return f"(Url.cutAt '{n.value.args[0].value}' {self.e(n.value.func.value)}).1"       # text before the first separator (or all of it)
         if isinstance(n, ast.Subscript) and isinstance(n.slice, ast.Constant) and isinstance(n.slice.value, str) and self.typ(n.value) == "dict":
             return f"((dictGet {self.e(n.value)} {self.e(n.slice)}).getD [])"      # only behind an `in` guard
+        if isinstance(n, ast.Subscript) and isinstance(n.slice, ast.Constant) and n.slice.value in self.spec.get("row_fields", ()) and self.typ(n.value) == "obj":
+            return self.e(n.value)            # a result row represented by its one selected column
         if isinstance(n, ast.List) and not n.elts:
             return "[]"
         if isinstance(n, ast.List):
@@ -284,6 +288,8 @@ class Tr:
             return f"(match {self.raw(n)} with | some s => !s.isEmpty | none => false)"
         if t in ("str", "list") and not isinstance(n, (ast.Compare, ast.BoolOp, ast.UnaryOp, ast.Call)):
             return f"(!({self.e(n)}).isEmpty)"
+        if t == "obj" and self.dotted(n) in self.spec.get("truthy_objs", ()):
+            return "true"          # an instance of a class with neither __bool__ nor __len__
         return self.e(n)
 
     # ---- statements --------------------------------------------------------------------------
@@ -306,13 +312,20 @@ class Tr:
             return f".ok {v}" if self.spec.get("mode") == "except" else v
         v = self.e(n) if n is not None else "()"
         if self.spec.get("mode") == "except" and self.spec.get("thread"):
-            return f"({self.spec['thread']}, .ok {v})"
+            return f"({self.spec['thread']}, .ok {v if v.startswith('(') or ' ' not in v else '(' + v + ')'})"
         if self.spec.get("mode") == "except":
             return f".ok {v}"
         return f"({self.state}, {v})" if self.state else v
 
     def error_of(self, exc) -> str:
-        if not (isinstance(exc, ast.Call) and ast.unparse(exc.func) == "ValueError" and len(exc.args) == 1):
+        cls = ast.unparse(exc.func) if isinstance(exc, ast.Call) else None
+        ctor = self.spec.get("error_ctors", {}).get(cls)
+        if ctor is not None:          # an exception class carrying values: (lean constructor, indexes of the arguments kept)
+            lean, idx = ctor
+            if any(i >= len(exc.args) for i in idx) or exc.keywords:
+                raise Unsupported(f"raise {ast.unparse(exc)[:40]}")
+            return "(" + lean + "".join(" " + self.e(exc.args[i]) for i in idx) + ")"
+        if not (cls in self.spec.get("error_classes", ("ValueError",)) and len(exc.args) == 1):
             raise Unsupported(f"raise {ast.unparse(exc)[:40]}")
         a = exc.args[0]
         head = a.value if isinstance(a, ast.Constant) else a.values[0].value if isinstance(a, ast.JoinedStr) and isinstance(a.values[0], ast.Constant) else None
@@ -321,8 +334,109 @@ class Tr:
                 return lean
         raise Unsupported(f"unknown error message {head!r}")
 
+    # ---- effects: calls that act on the threaded world state ------------------------------------
+    def _world_op(self, s):
+        """(entry, call, target) when the statement is `x = [await] op(...)`, `a, b = op(...)` or `op(...)` for a declared world operation"""
+        ops = self.spec.get("world_ops")
+        if not ops:
+            return None
+        if isinstance(s, ast.Assign) and len(s.targets) == 1:
+            v, tgt = s.value, s.targets[0]
+        elif isinstance(s, ast.AnnAssign) and s.value is not None:
+            v, tgt = s.value, s.target
+        elif isinstance(s, ast.Expr):
+            v, tgt = s.value, None
+        else:
+            return None
+        if isinstance(v, ast.Await):
+            v = v.value
+        if isinstance(v, ast.Call) and self.dotted(v.func) == "cursor.execute" and self.spec.get("sql") is not None:
+            # one SQL statement = one operation on the table; the statement text selects it, unknown text is not translated
+            if not v.args or not isinstance(v.args[0], ast.Constant) or not isinstance(v.args[0].value, str) or v.keywords or len(v.args) > 2:
+                raise Unsupported("cursor.execute without a literal statement")
+            text = " ".join(v.args[0].value.split())
+            ent = self.spec["sql"].get(text)
+            if ent is None:
+                raise Unsupported(f"SQL statement {text[:60]!r}")
+            given = list(v.args[1].elts) if len(v.args) == 2 and isinstance(v.args[1], ast.Tuple) else [] if len(v.args) == 1 else None
+            if given is None or len(given) != ent["nparams"]:
+                raise Unsupported(f"parameters of {text[:40]!r}")
+            return ent, ast.Call(func=v.func, args=[given[i] for i in ent["params"]], keywords=[]), tgt
+        if not isinstance(v, ast.Call) or self.dotted(v.func) not in ops:
+            return None
+        ent = ops[self.dotted(v.func)]
+        if ent.get("src") is not None and ast.unparse(v) != ent["src"]:
+            raise Unsupported(f"call {ast.unparse(v)[:60]} is not {ent['src']}")
+        return ent, v, tgt
+
+    def world_stmt(self, ent, call, tgt, rest, ind) -> str:
+        w = self.spec["thread"]
+        if call.keywords and ent.get("args", True):
+            raise Unsupported(f"keyword arguments of {ast.unparse(call.func)}")
+        args = "".join(" " + self.e(a) for a in call.args) if ent.get("args", True) else ""
+        ret = ent.get("ret")
+        if tgt is None:
+            pat = ent.get("bind", "_")
+        elif isinstance(tgt, ast.Name):
+            if ret is None or isinstance(ret, (list, tuple)):
+                raise Unsupported(f"result of {ast.unparse(call.func)} bound to a name")
+            pat = tgt.id
+            self.types[tgt.id] = ret
+            self.rename.pop(tgt.id, None)
+        elif isinstance(tgt, ast.Tuple) and all(isinstance(x, ast.Name) for x in tgt.elts) and isinstance(ret, (list, tuple)) and len(ret) == len(tgt.elts):
+            pat = "(" + ", ".join(x.id for x in tgt.elts) + ")"
+            for x, t in zip(tgt.elts, ret):
+                self.types[x.id] = t
+        else:
+            raise Unsupported(f"target of {ast.unparse(call.func)}")
+        if ent.get("raises"):
+            return (f"{ind}match {ent['fn']} {w}{args} with\n{ind}| ({w}, .error e) => ({w}, .error e)\n{ind}| ({w}, .ok {pat}) =>\n"
+                    + self.block(rest, ind + "  "))
+        if ret is None:
+            return f"{ind}let {w} := {ent['fn']} {w}{args}\n" + self.block(rest, ind)
+        return f"{ind}let ({w}, {pat}) := {ent['fn']} {w}{args}\n" + self.block(rest, ind)
+
+    def with_stmt(self, s, rest, ind) -> str:
+        """`with <declared context manager> as c: body` as the LAST statement: the body, then the manager's exit operation on the world"""
+        w = self.spec.get("thread")
+        if not w or rest or len(s.items) != 1 or ast.unparse(s.items[0].context_expr) not in self.spec.get("with_ctx", {}):
+            raise Unsupported("with statement")
+        fn, method, exit_src = self.spec["with_ctx"][ast.unparse(s.items[0].context_expr)]
+        # the manager must still be `try: yield c  finally: <exit_src>` (its exit operation is what the world operation stands for)
+        m = find_func(self.scope[0], self.spec["cls"], method) if self.scope else None
+        ok = (m is not None and m.body and isinstance(m.body[-1], ast.Try) and not m.body[-1].handlers and not m.body[-1].orelse
+              and len(m.body[-1].body) == 1 and isinstance(m.body[-1].body[0], ast.Expr) and isinstance(m.body[-1].body[0].value, ast.Yield)
+              and [ast.unparse(x) for x in m.body[-1].finalbody] == [exit_src])
+        if not ok:
+            raise Unsupported(f"context manager {method} is not `try: yield  finally: {exit_src}`")
+        body = self.block(list(s.body), ind + "    ")
+        return (f"{ind}match ((\n{body}\n{ind}  ) : {self.spec['ret_type']}) with\n{ind}| ({w}, r) =>\n{ind}  let {w} := {fn} {w}\n{ind}  ({w}, r)")
+
+    def try_stmt(self, s, rest, ind) -> str:
+        """`try: body  except C as e: raise C'(...)  finally: ops` as the LAST statement: the body is an expression of type
+        W × Except E R (a `return` or an exception ends it), the handlers map its error, the `finally` operations act on the world"""
+        w = self.spec.get("thread")
+        if not w or rest or s.orelse:
+            raise Unsupported("try statement that is not last / without a threaded world")
+        body = self.block(list(s.body), ind + "    ")
+        out = f"{ind}match ((\n{body}\n{ind}  ) : {self.spec['ret_type']}) with\n{ind}| ({w}, r) =>\n"
+        for h in s.handlers:
+            pat = self.spec.get("exc_patterns", {}).get(ast.unparse(h.type) if h.type is not None else None)
+            if pat is None or len(h.body) != 1 or not isinstance(h.body[0], ast.Raise) or h.body[0].exc is None:
+                raise Unsupported("exception handler")
+            out += f"{ind}  let r := match r with | .error {pat} => .error {self.error_of(h.body[0].exc)} | r => r\n"
+        for f in s.finalbody:
+            op = self._world_op(f)
+            if op is None or op[2] is not None or op[0].get("raises") or op[0].get("ret") is not None:
+                raise Unsupported(f"finally: {ast.unparse(f)[:40]}")
+            args = "".join(" " + self.e(a) for a in op[1].args)
+            out += f"{ind}  let {w} := {op[0]['fn']} {w}{args}\n"
+        return out + f"{ind}  ({w}, r)"
+
     def block(self, stmts, ind: str) -> str:
         if not stmts:
+            if self.spec.get("implicit_return"):
+                return ind + self.ret(None)
             raise Unsupported("control falls off the end")
         s, rest = stmts[0], stmts[1:]
         # an opaque sub-expression that may raise: evaluated (once) by the first statement that mentions it
@@ -342,8 +456,19 @@ class Tr:
             return f"{ind}.error {self.error_of(s.exc)}"
         if isinstance(s, (ast.Import, ast.ImportFrom)):
             return self.block(rest, ind)
+        if isinstance(s, ast.Assert) and self.spec.get("assert_error") and self.spec.get("thread"):
+            # `assert c`: AssertionError when c is false (assertions are enabled in the interpreter the server/client run in)
+            return (f"{ind}if {self.cond(s.test)} then\n{self.block(rest, ind + '  ')}\n{ind}else\n"
+                    f"{ind}  ({self.spec['thread']}, .error {self.spec['assert_error']})")
         if any(ast.unparse(s).startswith(x) for x in self.spec.get("skip_src", ())):
             return self.block(rest, ind)
+        op = self._world_op(s)
+        if op is not None:
+            return self.world_stmt(op[0], op[1], op[2], rest, ind)
+        if isinstance(s, ast.Try) and self.spec.get("world_ops"):
+            return self.try_stmt(s, rest, ind)
+        if isinstance(s, ast.With) and self.spec.get("with_ctx"):
+            return self.with_stmt(s, rest, ind)
         # `x = await f(...)` / `return await f(...)`: the await itself is not modelled (the callee is a parameter or the function itself)
         if isinstance(s, ast.Assign) and isinstance(s.value, ast.Await):
             s = ast.Assign(targets=s.targets, value=s.value.value, lineno=0)
@@ -753,6 +878,31 @@ class Tr:
         return all(isinstance(a, (ast.Assign, ast.AugAssign, ast.If)) for a in b)
 
 
+SQL_TOFU = {
+    "SELECT fingerprint FROM known_hosts WHERE hostname = ? AND port = ?": dict(fn="D.selectFp", nparams=2, params=[0, 1], ret="optobj", bind="cur"),
+    "INSERT INTO known_hosts (hostname, port, fingerprint, first_seen, last_seen) VALUES (?, ?, ?, ?, ?)":
+        dict(fn="D.insert", nparams=5, params=[0, 1, 2], raises=True, ret=None),
+    "UPDATE known_hosts SET fingerprint = ?, last_seen = ? WHERE hostname = ? AND port = ?": dict(fn="D.updateFp", nparams=4, params=[0, 2, 3], ret=None),
+    "UPDATE known_hosts SET last_seen = ? WHERE hostname = ? AND port = ?": dict(fn="D.touch", nparams=3, params=[1, 2], ret=None),
+    "DELETE FROM known_hosts WHERE hostname = ? AND port = ?": dict(fn="D.delete", nparams=2, params=[0, 1], ret="num", bind="cur"),
+    "DELETE FROM known_hosts WHERE hostname = ?": dict(fn="D.deleteHost", nparams=1, params=[0], ret="num", bind="cur"),
+    "DELETE FROM known_hosts": dict(fn="D.deleteAll", nparams=0, params=[], ret="num", bind="cur"),
+}
+
+
+def _tofu_spec(name, func, header, ret_type, **kw):
+    base = dict(name=name, file="security/tofu.py", cls="TOFUDatabase", func=func, mode="except", thread="w", header=header, ret_type=ret_type,
+                sql=SQL_TOFU, with_ctx={"self._connection()": ("D.close", "_connection", "conn.close()")},
+                world_ops={"conn.commit": dict(fn="D.commit", ret=None)},
+                skip_src=("cursor = conn.cursor()", "now = datetime.datetime.now(datetime.timezone.utc).isoformat()"),
+                funcs={"get_certificate_fingerprint": "fpOf"}, row_fields=("fingerprint",),
+                opaque={"cursor.fetchone()": "cur", "cursor.rowcount": "cur"},
+                types={"hostname": "num", "port": "num", "fingerprint": "num", "cert": "num", "cursor.fetchone()": "optobj", "row": "optobj",
+                       "cursor.rowcount": "num", "stored_fingerprint": "num"})
+    base.update(kw)
+    return base
+
+
 SPECS = [
     dict(name="consume", file="server/middleware.py", cls="TokenBucket", func="consume", state="s", numbers="Rat",
          header="def consume (s : BucketSt) (now tokens : Rat) : BucketSt × Bool :=",
@@ -826,6 +976,53 @@ SPECS = [
          errors={"Redirect loop detected": ".loop", "Maximum redirects": ".tooMany", "Redirect response missing URL": ".missing"},
          types={"url": "str", "redirect_chain": "list", "max_redirects": "num", "response": "obj", "response.status": "num", "response.redirect_url": "optstr",
                 "redirect_url": "optstr", "response.meta": "str"}),
+    dict(name="getSingleTail", file="client/session.py", cls="GeminiClient", func="_get_single", mode="except", thread="w", start="last_try",
+         header=("def getSingleTail {W C R : Type} (E : Cl.TofuEnv W C R) (tofu : Bool) (host port : Nat) (w : W) : W × Except Cl.CErr R :="), ret_type="W × Except Cl.CErr R",
+         rename={"self.tofu_db": "tofu", "parsed.hostname": "host", "parsed.port": "port"},
+         types={"self.tofu_db": "bool", "parsed.hostname": "num", "parsed.port": "num", "is_valid": "bool", "message": "str"},
+         truthy_objs=("cert",),
+         world_ops={
+             "protocol.get_peer_certificate": dict(fn="E.peerCert", ret="optobj"),
+             "self.tofu_db.verify": dict(fn="E.verify", raises=True, ret=("bool", "str")),
+             "self.tofu_db.get_host_info": dict(fn="E.hostInfo", raises=True, ret="optobj"),
+             "self.tofu_db.trust": dict(fn="E.trust", raises=True, ret=None),
+             "protocol.send_request": dict(fn="E.sendRequest", ret=None),
+             "asyncio.wait_for": dict(fn="E.awaitResponse", raises=True, ret="obj", args=False, src="asyncio.wait_for(response_future, timeout=self.timeout)"),
+             "transport.close": dict(fn="E.close", ret=None),
+         },
+         opaque={"old_info['fingerprint'] if old_info else 'unknown'": "old_info"},
+         funcs={"get_certificate_fingerprint": "E.fp"},
+         error_classes=("ConnectionError", "TimeoutError"),
+         errors={"Peer certificate of ": ".unreadable", "Request timeout": ".timeout"},
+         error_ctors={"CertificateChangedError": (".changed", [2, 3])},
+         exc_patterns={"TimeoutError": ".timeout"}, assert_error=".assertion"),
+    dict(name="uploadTail", file="client/session.py", cls="GeminiClient", func="upload", mode="except", thread="w", start="last_try",
+         header=("def uploadTail {W C R : Type} (E : Cl.TofuEnv W C R) (tofu : Bool) (host port : Nat) (w : W) : W × Except Cl.CErr R :="), ret_type="W × Except Cl.CErr R",
+         rename={"self.tofu_db": "tofu", "parsed.hostname": "host", "parsed.port": "port"},
+         types={"self.tofu_db": "bool", "parsed.hostname": "num", "parsed.port": "num", "is_valid": "bool", "message": "str"},
+         truthy_objs=("cert",),
+         world_ops={
+             "protocol.get_peer_certificate": dict(fn="E.peerCert", ret="optobj"),
+             "self.tofu_db.verify": dict(fn="E.verify", raises=True, ret=("bool", "str")),
+             "self.tofu_db.get_host_info": dict(fn="E.hostInfo", raises=True, ret="optobj"),
+             "self.tofu_db.trust": dict(fn="E.trust", raises=True, ret=None),
+             "protocol.send_request": dict(fn="E.sendRequest", ret=None),
+             "asyncio.wait_for": dict(fn="E.awaitResponse", raises=True, ret="obj", args=False, src="asyncio.wait_for(response_future, timeout=self.timeout)"),
+             "transport.close": dict(fn="E.close", ret=None),
+         },
+         opaque={"old_info['fingerprint'] if old_info else 'unknown'": "old_info"},
+         funcs={"get_certificate_fingerprint": "E.fp"},
+         error_classes=("ConnectionError", "TimeoutError"),
+         errors={"Peer certificate of ": ".unreadable", "Upload timeout": ".timeout"},
+         error_ctors={"CertificateChangedError": (".changed", [2, 3])},
+         exc_patterns={"TimeoutError": ".timeout"}, assert_error=".assertion"),
+    _tofu_spec("tofuVerify", "verify", "def tofuVerify {W H : Type} (D : Misc.SqlEnv W H) (fpOf : Nat → Nat) (w : W) (hostname : H) (port cert : Nat) : W × Except Misc.DbErr (Bool × List Char) :=",
+               "W × Except Misc.DbErr (Bool × List Char)"),
+    _tofu_spec("tofuTrust", "trust", "def tofuTrust {W H : Type} (D : Misc.SqlEnv W H) (fpOf : Nat → Nat) (w : W) (hostname : H) (port cert : Nat) : W × Except Misc.DbErr Unit :=",
+               "W × Except Misc.DbErr Unit", implicit_return=True),
+    _tofu_spec("tofuRevoke", "revoke", "def tofuRevoke {W H : Type} (D : Misc.SqlEnv W H) (w : W) (hostname : H) (port : Nat) : W × Except Misc.DbErr Bool :=", "W × Except Misc.DbErr Bool"),
+    _tofu_spec("tofuRevokeHost", "revoke_by_hostname", "def tofuRevokeHost {W H : Type} (D : Misc.SqlEnv W H) (w : W) (hostname : H) : W × Except Misc.DbErr Nat :=", "W × Except Misc.DbErr Nat"),
+    _tofu_spec("tofuClear", "clear", "def tofuClear {W H : Type} (D : Misc.SqlEnv W H) (w : W) : W × Except Misc.DbErr Nat :=", "W × Except Misc.DbErr Nat"),
     dict(name="parseUrl", file="utils/url.py", cls=None, func="parse_url", mode="except", numfmt="Url.natToStr",
          header=("def parseUrl (url scheme : Url.Str) (hostname username password : Option Url.Str) (fragment : Url.Str) (splitR : Except Url.Err Unit)\n"
                  "    (portR : Except Url.Err (Option Nat)) (path netloc query : Url.Str) : Except Url.Err Url.Parsed :="),
@@ -874,6 +1071,9 @@ PRELUDE = {
     "findRule": (["NauyacaVerif.Mw.Cert"], []),
     "uploadGate": ([], []),
     "followRedirects": (["NauyacaVerif.Cl.Redirect"], []),
+    "getSingleTail": (["NauyacaVerif.Cl.TofuEnv"], []), "uploadTail": (["NauyacaVerif.Cl.TofuEnv"], []),
+    "tofuVerify": (["NauyacaVerif.Misc.SqlEnv"], []), "tofuTrust": (["NauyacaVerif.Misc.SqlEnv"], []), "tofuRevoke": (["NauyacaVerif.Misc.SqlEnv"], []),
+    "tofuRevokeHost": (["NauyacaVerif.Misc.SqlEnv"], []), "tofuClear": (["NauyacaVerif.Misc.SqlEnv"], []),
     "titanParams": (["NauyacaVerif.Srv.Conn", "NauyacaVerif.Misc.PyDict"], DICT_PRELUDE),
     "titanFromLine": (["NauyacaVerif.Srv.Conn", "NauyacaVerif.Misc.PyDict"], DICT_PRELUDE + [
         "inductive TErr where", "  | notTitan | noParams | noSize | badSize | negSize | url (e : Url.Err)", "deriving Repr, DecidableEq", "",
@@ -904,10 +1104,16 @@ def translate_all() -> tuple[dict[str, str], dict[str, str]]:
             spec["_locals"] = {a.arg for a in f.args.args + f.args.kwonlyargs} | {n.id for n in ast.walk(f) if isinstance(n, ast.Name) and isinstance(n.ctx, ast.Store)}
             spec["_scope"] = (module, next((n for n in ast.walk(module) if isinstance(n, ast.ClassDef) and n.name == spec["cls"]), None) if spec["cls"] else None)
             spec["_helpers"], spec["_helper_types"] = {}, {}
+            stmts = list(f.body)
+            if spec.get("start") == "last_try":
+                tries = [i for i, x in enumerate(stmts) if isinstance(x, ast.Try)]
+                if not tries:
+                    raise Unsupported("no try statement")
+                stmts = stmts[tries[-1]:]
             if spec.get("fuel"):
-                body = "  match fuel with\n  | 0 => " + spec["fuel"] + "\n  | fuel + 1 =>\n" + Tr(spec).block(list(f.body), "    ")
+                body = "  match fuel with\n  | 0 => " + spec["fuel"] + "\n  | fuel + 1 =>\n" + Tr(spec).block(stmts, "    ")
             else:
-                body = Tr(spec).block(list(f.body), "  ")
+                body = Tr(spec).block(stmts, "  ")
             out += [h for h in spec["_helpers"].values() if h]
             out += [f"/-- `{(spec['cls'] + '.') if spec['cls'] else ''}{spec['func']}` ({spec['file']}), translated -/", spec["header"], body, ""]
             status[spec["name"]] = "ok"
